@@ -41,6 +41,19 @@ def invalidates_before_empty(fn):
     raise ExtractError("no emptyDirectory call in " + fn.name)
 
 
+def scm_invalidates_first(fn):
+    """does `_cookCheckoutStep` persist `oldCheckoutState[scmDir] = (False, scmSpec)` before it switches / moves a
+    changed SCM directory?  (one such assignment belongs to --clean-checkout, the second one is the invalidation)"""
+    n = 0
+    for node in ast.walk(fn):
+        if isinstance(node, ast.Assign) and len(node.targets) == 1 and isinstance(node.targets[0], ast.Subscript) \
+                and isinstance(node.targets[0].value, ast.Name) and node.targets[0].value.id == "oldCheckoutState" \
+                and isinstance(node.value, ast.Tuple) and node.value.elts \
+                and isinstance(node.value.elts[0], ast.Constant) and node.value.elts[0].value is False:
+            n += 1
+    return n >= 2
+
+
 def body_text(repo):
     t = parse(repo, "pym/bob/builder.py")
     lb = find(t, "LocalBuilder")
@@ -58,6 +71,8 @@ def body_text(repo):
         "def buildPruneInvalidatesFirst : Bool := " + ("true" if invalidates_before_empty(bu) else "false"),
         "/-- `_preparePackageStep` invalidates the stored state before it empties a workspace it prunes -/",
         "def packagePruneInvalidatesFirst : Bool := " + ("true" if invalidates_before_empty(pp) else "false"),
+        "/-- `_cookCheckoutStep` marks a changed SCM directory as invalid in the stored state before it is switched or moved -/",
+        "def scmInvalidatesFirst : Bool := " + ("true" if scm_invalidates_first(co) else "false"),
     ]
     return lines
 
